@@ -1833,9 +1833,26 @@ pub fn probe_cb(pr: futures_buffered::verif::Probe) {
                     size,
                     cap,
                     live_clones: 0,
+                    list_alive: true,
                     released: false,
                 });
                 false
+            }
+            Probe::ListDrop { base } => {
+                match x.blocks.iter().rposition(|b| b.base == base && !b.released) {
+                    Some(i) => {
+                        if !x.blocks[i].list_alive {
+                            x.violate(p(3), "C03/list-dropped-twice", format!("the owner of block {base:#x} released its reference twice"));
+                            stop = true;
+                        }
+                        x.blocks[i].list_alive = false;
+                    }
+                    None => {
+                        x.violate(p(3), "C03/use-after-release", format!("a WakerList whose block {base:#x} is released or unknown was dropped"));
+                        stop = true;
+                    }
+                }
+                stop
             }
             Probe::BlockRelease { base } => {
                 x.ev(|| format!("    [block {base:#x} released]"));
@@ -1847,11 +1864,12 @@ pub fn probe_cb(pr: futures_buffered::verif::Probe) {
                         } else {
                             x.blocks[i].released = true;
                             let lc = x.blocks[i].live_clones;
-                            if lc != 0 {
+                            let la = x.blocks[i].list_alive;
+                            if lc != 0 || la {
                                 x.violate(
                                     p(3),
                                     "C03/released-while-referenced",
-                                    format!("waker block {base:#x} released while {lc} waker clones are outstanding"),
+                                    format!("waker block {base:#x} released while {lc} waker clones are outstanding and its collection/group holds its reference = {la}"),
                                 );
                                 // do not let the crate destroy a block that is still referenced
                                 x.blocks[i].released = false;
